@@ -294,6 +294,132 @@ Lemma attempt_times : forall ws t,
   forall j, (j < length ws)%nat -> nth (S j) (times t ws) 0 - nth j (times t ws) 0 = Z.max 0 (nth j ws 0).
 Proof. intros ws t. split; [exact (first_attempt_at_once t ws)|]. split; [exact (times_length ws t)|exact (times_gap ws t)]. Qed.
 
+(* ---------- which failures are retried: exactly the property's list ---------- *)
+
+Lemma retryable_iff_transient : forall f, retryable f <-> transient f = true.
+Proof.
+  intros f. unfold retryable. split.
+  - intros [ra H]. destruct f; simpl in *; try discriminate; try reflexivity.
+    destruct (code <? 400) eqn:E4; [discriminate|]. apply Z.ltb_ge in E4.
+    destruct (code =? 401); [discriminate|].
+    destruct (code =? 403); [rewrite orb_true_r; reflexivity|].
+    destruct (code =? 429); [rewrite orb_true_r; reflexivity|].
+    destruct (code <? 500) eqn:E5; [discriminate|]. apply Z.ltb_ge in E5.
+    destruct (code <? 600) eqn:E6; [|discriminate].
+    assert (E : (500 <=? code) = true) by (apply Z.leb_le; lia). rewrite E. reflexivity.
+  - intros H. destruct f; simpl in *; try discriminate; try (eexists; reflexivity).
+    destruct (code <? 400) eqn:E4.
+    { apply Z.ltb_lt in E4. apply orb_true_iff in H. destruct H as [H|H].
+      - apply orb_true_iff in H. destruct H as [H|H].
+        + apply andb_true_iff in H. destruct H as [H _]. apply Z.leb_le in H. lia.
+        + apply Z.eqb_eq in H. lia.
+      - apply Z.eqb_eq in H. lia. }
+    destruct (code =? 401) eqn:E1.
+    { apply Z.eqb_eq in E1. subst. vm_compute in H. discriminate. }
+    destruct (code =? 403); [eexists; reflexivity|].
+    destruct (code =? 429); [eexists; reflexivity|]. simpl in H. rewrite !orb_false_r in H.
+    apply andb_true_iff in H. destruct H as [H5 H6]. apply Z.leb_le in H5.
+    destruct (code <? 500) eqn:E5; [apply Z.ltb_lt in E5; lia|]. rewrite H6. eexists; reflexivity.
+Qed.
+
+(* a transient failure with a backoff left is always followed by another attempt *)
+Lemma transient_is_retried : forall enforce src i f fs b,
+  transient f = true -> src i = Some b ->
+  exists ra ws o rest, classify f = KRetry ra /\
+    request enforce src (S i) fs = (ws, o, rest) /\
+    request enforce src i (f :: fs) = (adjust enforce b ra :: ws, o, rest).
+Proof.
+  intros enforce src i f fs b Ht Hs. apply retryable_iff_transient in Ht. destruct Ht as [ra Hc].
+  destruct (request enforce src (S i) fs) as [[ws o] rest] eqn:Hr.
+  exists ra, ws, o, rest. split; [exact Hc|]. split; [reflexivity|].
+  cbn [request]. rewrite Hc, Hs, Hr. reflexivity.
+Qed.
+
+(* ---------- the configuration value ---------- *)
+
+Lemma attempts_cfg_bounded : forall enforce c fs,
+  match c with
+  | BScalar _ => (attempts (request enforce (src_of c) O fs) <= 2)%nat
+  | BList l => (attempts (request enforce (src_of c) O fs) <= S (length l))%nat
+  | BEndless _ => (attempts (request enforce (src_of c) O fs) <= S (length fs))%nat
+  end.
+Proof.
+  intros enforce [b|l|g] fs; simpl.
+  - apply (attempts_bounded enforce [b] fs).
+  - apply attempts_bounded.
+  - unfold attempts, waits_of. destruct (request enforce (src_fun g) 0 fs) as [[ws o] rest] eqn:H. simpl.
+    destruct (request_spec _ _ _ _ _ _ _ H) as (Hl & _). lia.
+Qed.
+
+(* ---------- @authenticated around request ---------- *)
+
+Lemma reauth_consumes : forall enforce src i fs ws f rest,
+  request enforce src i fs = (ws, OReauth f, rest) ->
+  (length rest < length fs)%nat /\ is_reauth f = true /\
+  (length (filter is_reauth rest) < length (filter is_reauth fs))%nat.
+Proof.
+  intros enforce src i fs ws f rest H.
+  destruct (request_spec _ _ _ _ _ _ _ H) as (Hlen & Hw & Hrest & Hend).
+  destruct Hend as [[_ Ho]|[Hn Hm]]; [discriminate|].
+  assert (Hf : classify (nthf (length ws) fs) = KReauth /\ f = nthf (length ws) fs).
+  { destruct (classify (nthf (length ws) fs)); try discriminate; try (destruct Hm; discriminate).
+    injection Hm as ->. auto. }
+  destruct Hf as [Hc ->]. split; [|split].
+  - rewrite Hrest, skipn_length. lia.
+  - unfold is_reauth. rewrite Hc. reflexivity.
+  - rewrite Hrest. clear - Hn Hc. revert fs Hn Hc. generalize (length ws) as n.
+    induction n as [|n IH]; intros [|a fs] Hn Hc; simpl in Hn; try lia.
+    + unfold nthf in Hc. simpl in Hc. simpl. unfold is_reauth at 2. rewrite Hc. simpl. lia.
+    + unfold nthf in *. simpl in Hc. specialize (IH fs ltac:(lia) Hc).
+      change (skipn (S (S n)) (a :: fs)) with (skipn (S n) fs). cbn [filter].
+      destruct (is_reauth a); cbn [length]; lia.
+Qed.
+
+Definition call_outcome (r : list Z * outcome * nat) : outcome := snd (fst r).
+Definition call_times (r : list Z * outcome * nat) : list Z := fst (fst r).
+Definition call_reauths (r : list Z * outcome * nat) : nat := snd r.
+
+(* with the vault always re-populated, an authentication failure never reaches the caller, and the
+   number of re-authentications is at most the number of 401 / closed-session faults in the script *)
+Lemma call_spec : forall fuel enforce src lat t fs,
+  (length fs < fuel)%nat ->
+  (forall f, call_outcome (call fuel enforce src lat t fs) <> OReauth f) /\
+  (call_reauths (call fuel enforce src lat t fs) <= length (filter is_reauth fs))%nat /\
+  hd t (call_times (call fuel enforce src lat t fs)) = t.
+Proof.
+  induction fuel as [|fuel IH]; intros enforce src lat t fs Hf; [lia|].
+  simpl. destruct (request enforce src 0 fs) as [[ws o] rest] eqn:Hr.
+  destruct o as [|f|f].
+  - simpl. split; [discriminate|]. split; [lia|apply first_attempt_at_once].
+  - simpl. split; [discriminate|]. split; [lia|apply first_attempt_at_once].
+  - destruct (reauth_consumes _ _ _ _ _ _ _ Hr) as (H1 & _ & H3).
+    specialize (IH enforce src lat (last (times t ws) t + Z.max 0 lat) rest ltac:(lia)).
+    destruct (call fuel enforce src lat (last (times t ws) t + Z.max 0 lat) rest) as [[ts' o'] n] eqn:Hc.
+    unfold call_outcome, call_reauths, call_times in *. simpl in *. destruct IH as (I1 & I2 & _).
+    split; [exact I1|]. split; [lia|].
+    destruct ws; reflexivity.
+Qed.
+
+(* a re-authentication restarts the WHOLE cycle: the retry counter and the backoffs start again from 0 *)
+Lemma reauth_restarts_cycle : forall fuel enforce src lat t fs ws f rest,
+  request enforce src O fs = (ws, OReauth f, rest) ->
+  call (S fuel) enforce src lat t fs =
+    (times t ws ++ call_times (call fuel enforce src lat (last (times t ws) t + Z.max 0 lat) rest),
+     call_outcome (call fuel enforce src lat (last (times t ws) t + Z.max 0 lat) rest),
+     S (call_reauths (call fuel enforce src lat (last (times t ws) t + Z.max 0 lat) rest))).
+Proof.
+  intros. simpl. rewrite H.
+  destruct (call fuel enforce src lat (last (times t ws) t + Z.max 0 lat) rest) as [[ts' o'] n]. reflexivity.
+Qed.
+
+Example call_example :
+  call 5 false (src_list [1; 2]) 3 0 [FStatus 500 None None; FStatus 401 None None; FStatus 503 (Some 7) None]
+  = ([0; 1; 4; 11], ODone, 1%nat).
+Proof. vm_compute. reflexivity. Qed.
+
+Example transient_example : transient (FStatus 503 (Some 7) None) = true /\ src_of (BScalar 4) O = Some 4.
+Proof. split; reflexivity. Qed.
+
 (* ---------- non-vacuity ---------- *)
 Example retry_example :
   request_obs false (src_list [1; 2; 3])
@@ -303,3 +429,15 @@ Proof. vm_compute. reflexivity. Qed.
 
 Example retry_example_hyp : Forall retryable [FStatus 500 None None; FConn; FTimeout; FStatus 429 (Some 7) (Some 3)].
 Proof. repeat constructor; eexists; vm_compute; reflexivity. Qed.
+
+(* hypotheses of the per-wait theorems are satisfiable: a script with three waits, one after a 5xx that
+   carries Retry-After in the details style, one after a 403 with the header, under enforce *)
+Example waits_example :
+  let fs := [FStatus 504 None (Some 9); FStatus 403 (Some 1) None; FTimeout; FStatus 404 None None] in
+  waits_of (request true (src_of (BList [2; 5; 3])) O fs) = [9; 1; 3] /\
+  requested (nthf 0 fs) = Some 9 /\ requested (nthf 2 fs) = None /\
+  outcome_of (request true (src_of (BList [2; 5; 3])) O fs) = OEscalate (FStatus 404 None None).
+Proof. vm_compute. repeat split; try reflexivity. Qed.
+
+Example plain_4xx_example : plain_4xx 404 /\ plain_4xx 422 /\ ~ plain_4xx 429.
+Proof. unfold plain_4xx. split; [lia|]. split; [lia|]. intros (_ & _ & _ & H). apply H. reflexivity. Qed.
